@@ -25,7 +25,7 @@ def _segments_from_model(m):
     """real Segments object in the abstract state of the model"""
     segs = encoder.Segments()
     classes = (('count_numeric', 'numeric', None), ('count_alphanumeric', 'alphanumeric', None),
-               ('count_byte', 'byte', 'iso-8859-1'), ('count_byte_noniso', 'byte', 'utf-8'),
+               ('count_byte', 'byte', 'iso-8859-1'), ('count_byte_noniso', 'byte', 'utf-8'), ('count_byte_alias', 'byte', 'latin1'),
                ('count_kanji', 'kanji', None), ('count_hanzi', 'hanzi', None))
     n = sum(max(0, int(m.get(k, 0))) for k, _, _ in classes)
     payload = int(m.get('payload_bits', 0))
@@ -107,10 +107,10 @@ def replay_need(model, obligation, version, eci, is_sa):
 
 # ---------------------------------------------------------------- API-level lifting
 _UNIT = {'numeric': ('7', 'numeric', None), 'alphanumeric': ('A', 'alphanumeric', None),
-         'byte': ('a', 'byte', None), 'byte_noniso': ('ä', 'byte', 'utf-8'),
+         'byte': ('a', 'byte', None), 'byte_noniso': ('ä', 'byte', 'utf-8'), 'byte_alias': ('ä', 'byte', 'latin1'),
          'kanji': ('点', 'kanji', None), 'hanzi': ('汉', 'hanzi', None)}
 _KEYS = (('count_numeric', 'numeric'), ('count_alphanumeric', 'alphanumeric'), ('count_byte', 'byte'),
-         ('count_byte_noniso', 'byte_noniso'), ('count_kanji', 'kanji'), ('count_hanzi', 'hanzi'))
+         ('count_byte_noniso', 'byte_noniso'), ('count_byte_alias', 'byte_alias'), ('count_kanji', 'kanji'), ('count_hanzi', 'hanzi'))
 
 
 def _arrange(model):
